@@ -26,6 +26,7 @@ subprocess.run("touch crates/parser/src/generated/*", cwd=wt, shell=True)  # els
 subprocess.run(["git", "apply", os.path.join(d, "patch.diff")], cwd=wt, check=True)
 t0 = time.time()
 env = dict(os.environ, VERIF_REPO=wt, VERIF_SEED=a.seed)
+env.setdefault("VERIF_ALT_TARGET", "/tmp/try-target")
 p = subprocess.run(["./check", a.pid, "--tier", a.tier], cwd="/verif", env=env, capture_output=True, text=True)
 lines = [l for l in p.stdout.splitlines() if l.startswith(("VIOLATION", "KNOWN-FINDING", "OK", "  "))]
 print("rc=%d wall=%.0fs" % (p.returncode, time.time() - t0))
